@@ -602,7 +602,10 @@ func collectRaces(agg *Agg, j *Job, path string) {
 				ln = strings.TrimSpace(ln)
 				if strings.HasPrefix(ln, "github.com/hedzr/logg") {
 					fn := ln
-					if i := strings.Index(fn, "("); i > 0 {
+					if i := strings.LastIndex(fn, "("); i > 0 { // cut the argument list, keep receivers like (*Entry)
+						fn = fn[:i]
+					}
+					if i := strings.Index(fn, "["); i > 0 { // drop generic instantiation details
 						fn = fn[:i]
 					}
 					fn = strings.TrimPrefix(fn, "github.com/hedzr/logg/")
